@@ -31,7 +31,11 @@ Interior(lo, hi, n) == lo + ((Salt * 7919 + n * 104729 + 12345) % (hi - lo + 1))
 
 \* out-of-range values that are congruent to small legal ones modulo a power of two: an encoder that masks the
 \* operand before its range check lets them through
-MaskProbes(fld) == IF fld.w > 12 THEN {2^16 + 5} ELSE {2^j + 5 : j \in fld.w..(fld.w + 5)} \cup {2^j : j \in fld.w..(fld.w + 5)}
+\* (AVR SBI 517 = 512 + 5 was encoded as port 5), also when the operand is first rebased by the size of the field's own
+\* range (an I/O register number written as its data-space address 2^w + n, then masked)
+MaskProbes(fld) == IF fld.w > 12 THEN {2^16 + 5}
+                   ELSE {2^j + 5 : j \in fld.w..(fld.w + 5)} \cup {2^j : j \in fld.w..(fld.w + 5)}
+                        \cup {2^fld.w + 2^j + 5 : j \in (fld.w + 1)..(fld.w + 5)}
 
 NumClasses(fld) ==
   LET s  == fld.scale
